@@ -403,7 +403,7 @@ func (z *ZodMap[T, R]) extractType(value any, ctx *core.ParseContext) (map[any]a
 			return converted, nil
 		}
 	}
-	return nil, issues.CreateInvalidTypeError(core.ZodTypeMap, value, ctx)
+	return nil, issues.CreateInvalidTypeErrorWithInst(core.ZodTypeMap, value, ctx, &z.internals.ZodTypeInternals)
 }
 
 func (z *ZodMap[T, R]) validateMap(value map[any]any, chks []core.ZodCheck, ctx *core.ParseContext) (map[any]any, error) {
